@@ -104,6 +104,9 @@ def run(ctx):
     lag = find_lag_handler(F)
     if lag is not None:
         c08.r08_3(ctx, c08.stream_fns(F), lag)
+    from . import groups
+    groups.im_core(ctx)
+
 
 
 def check_mutator(ctx, f, pub, table):
@@ -219,6 +222,11 @@ def check_mutator(ctx, f, pub, table):
             facts = conds.dominating_facts(b, pblk)
             is_len = lambda e: contains(e, lambda x: x[0] == "call" and ecall_matches(x, r"::len$"))
             is_arg = lambda e: strip(e)[0] == "param" and strip(e)[1] == 2
+            foreign = lambda e: is_len(e) and mentions_field(e, "inner")
+            if conds.cmp_holds(facts, "Lt", is_arg, foreign) or conds.cmp_holds(facts, "Le", is_arg, foreign):
+                ctx.violated("R05.3", f, "noop-guard", b.line_at((pblk, 10 ** 6)),
+                             "`%s` compares the new length with the length of the *committed* vector (through `inner`), not of the contents it truncates: after the transaction changed the length the documented no-op emits a Truncate / a real truncation is skipped" % f.path)
+                continue
             lt = conds.cmp_holds(facts, "Lt", is_arg, is_len)
             le = conds.cmp_holds(facts, "Le", is_arg, is_len)
             if lt:
